@@ -91,6 +91,21 @@ fn entry_str(e: &WalEntry) -> String {
     }
 }
 
+/// bytes the real encoder + framing take for the record the model names `e` (key and value of the operation
+/// at hand; ids and vectors from the model's record string)
+fn record_size(e: &str, key: &str, data: Option<&TensorData>) -> usize {
+    let parts: Vec<&str> = e.split(':').collect();
+    let entry = match parts.as_slice() {
+        ["set", ..] => WalEntry::MetadataSet { key: key.to_string(), data: data.cloned().unwrap_or_default() },
+        ["del", _] => WalEntry::MetadataDelete { key: key.to_string() },
+        ["eset", id, v] => WalEntry::EmbeddingSet { entity_id: tensor_store::EntityId::new(id.parse().unwrap_or(0)), embedding: f32s_of(v) },
+        ["edel", id] => WalEntry::EmbeddingDelete { entity_id: tensor_store::EntityId::new(id.parse().unwrap_or(0)) },
+        ["eremove", _] => WalEntry::EntityRemove { key: key.to_string() },
+        _ => return 0,
+    };
+    8 + bitcode::serialize(&entry).map(|b| b.len()).unwrap_or(0)
+}
+
 // ------------------------------------------------------------------ operations and generators
 
 #[derive(Clone, Debug)]
@@ -269,6 +284,7 @@ fn cfg_of(cc: &ChainCfg) -> WalConfig {
     let mut c = cfg_for(cc.mode, cc.max_size);
     c.enable_checksums = cc.checksums;
     c.verify_on_replay = cc.verify;
+    c.auto_rotate = !cc.no_rotate;
     c
 }
 fn mode_str(m: SyncMode) -> String {
@@ -390,6 +406,8 @@ struct Ctx {
     /// what each snapshot (model name) was taken from: key -> value at checkpoint time
     snap_contents: std::collections::HashMap<String, SnapContent>,
     max_rel_err: f64,
+    /// tolerance observations already recorded in full (the report keeps 20 observations in all)
+    n_inexact_obs: usize,
 }
 
 impl Ctx {
@@ -593,6 +611,13 @@ fn check_recovery(ctx: &mut Ctx, ds: &DiskState, cfg: &WalConfig, exp: &Expect, 
     } else {
         ctx.rep.hit("oracle.recovered_state_is_acked_prefix");
     }
+    if let Some(img) = &img {
+        let embp = format!("!{}", hex(b"emb:"));
+        for g in img.iter().filter(|s| s.starts_with(&embp)) {
+            ctx.rep.hit("observe.ghost_key_in_recovered_scan");
+            ctx.rep.observe(json!({"class": FAILED_PUT_GHOST, "what": "RECOVERED store: scan lists an emb: key that get rejects (entity-index entry of a failed put_durable, persisted by a checkpoint)", "key_hex": g, "crash": info.what, "snapshot": ds.snap_name, "script": info.script}));
+        }
+    }
     let _ = std::fs::remove_dir_all(&d);
     matched
 }
@@ -604,7 +629,10 @@ fn note_inexact(ctx: &mut Ctx, e: f64, info: &CrashInfo, snap: &str) {
     if e > ctx.max_rel_err {
         ctx.max_rel_err = e;
     }
-    ctx.rep.observe(json!({"what": "an embedding of dimension >= 256 read back through a checkpoint snapshot is within the tensor-train reconstruction tolerance but not bit-exact (lossy by design; C07)", "relative_l2_error": e, "tolerance": TT_REL_TOL, "crash": info.what, "snapshot": snap, "stream": info.stream}));
+    ctx.n_inexact_obs += 1;
+    if ctx.n_inexact_obs <= 4 {
+        ctx.rep.observe(json!({"what": "an embedding of dimension >= 256 read back through a checkpoint snapshot is within the tensor-train reconstruction tolerance but not bit-exact (lossy by design; C07); every occurrence is counted in the distribution under observe.snapshot_embedding_within_tolerance_not_bit_exact", "relative_l2_error": e, "tolerance": TT_REL_TOL, "crash": info.what, "snapshot": snap, "stream": info.stream}));
+    }
 }
 
 /// If some prefix image equals `dur` once the `_embedding` part of `emb:` keys is ignored,
@@ -667,9 +695,12 @@ struct ChainCfg {
     checksums: bool,
     /// `WalConfig::verify_on_replay`
     verify: bool,
+    /// `WalConfig::auto_rotate = false` (with `max_size`): a record that does not fit is refused with
+    /// SizeLimitExceeded and the operation returns an error (model: Wal.appendLim, stepF)
+    no_rotate: bool,
 }
 
-const BASE: ChainCfg = ChainCfg { stream: "", mode: SyncMode::Immediate, max_size: None, every_byte: false, random_cuts: 0, resume_full: false, compare_model: true, bloom: false, checksums: true, verify: true };
+const BASE: ChainCfg = ChainCfg { stream: "", mode: SyncMode::Immediate, max_size: None, every_byte: false, random_cuts: 0, resume_full: false, compare_model: true, bloom: false, checksums: true, verify: true, no_rotate: false };
 
 /// expected number of items / false-positive rate of the Bloom filter of the bloom streams
 const BLOOM_ITEMS: usize = 64;
@@ -718,6 +749,7 @@ fn run_chain(ctx: &mut Ctx, r: &mut Rng, cc: &ChainCfg, epochs: &[Vec<Op>]) {
         },
     };
     ctx.m.ask(&format!("open {} 0{}", mode_str(cc.mode), if cc.bloom { " bloom" } else { "" }));
+    if cc.no_rotate { ctx.rep.hit("config.no_auto_rotate"); }
     ctx.m.ask("raw_open -");
     if cc.bloom { ctx.rep.hit("config.bloom"); }
     if !cc.checksums { ctx.rep.hit("config.no_checksums"); }
@@ -751,14 +783,37 @@ fn run_chain(ctx: &mut Ctx, r: &mut Rng, cc: &ChainCfg, epochs: &[Vec<Op>]) {
                         _ => unreachable!(),
                     };
                     let is_put = matches!(op, Op::Put(..));
+                    // size rule (`auto_rotate = false`): what the operation would log now, and how many bytes each
+                    // record takes with the real encoder
+                    let lim_sizes: Option<String> = if cc.no_rotate {
+                        let peek = match op {
+                            Op::Put(_, d) => { let c = canon(d); ctx.m.ask(&format!("peek put {} {} {}", hex(k.as_bytes()), hex(&c.0), ob_str(&c.1))) },
+                            _ => ctx.m.ask(&format!("peek del {}", hex(k.as_bytes()))),
+                        };
+                        let data = if let Op::Put(_, d) = op { Some(d.clone()) } else { None };
+                        let sizes: Vec<String> = peek.split(',').filter(|x| *x != "-" && !x.is_empty()).map(|e| record_size(e, k, data.as_ref()).to_string()).collect();
+                        Some(if sizes.is_empty() { "-".to_string() } else { sizes.join(",") })
+                    } else { None };
+                    let cur_len = std::fs::metadata(&wal_path).map(|m| m.len() as usize).unwrap_or(0);
                     let (imp_res, line) = if let Op::Put(_, d) = op {
                         let c = canon(d);
                         let res = store.put_durable(k.clone(), d.clone());
                         (if res.is_ok() { "ok" } else { "err" }, format!("put {} {} {}", hex(k.as_bytes()), hex(&c.0), ob_str(&c.1)))
                     } else {
                         let res = store.delete_durable(k);
-                        (if res.is_ok() { "ok" } else { "notfound" }, format!("del {}", hex(k.as_bytes())))
+                        let word = match &res {
+                            Ok(()) => "ok",
+                            Err(e) if cc.no_rotate && e.to_string().contains("Failed to log") => "err",
+                            Err(_) => "notfound",
+                        };
+                        (word, format!("del {}", hex(k.as_bytes())))
                     };
+                    let line = match &lim_sizes {
+                        Some(sz) => format!("lim{} {} {} {}", line, cc.max_size.unwrap_or(0), cur_len, sz),
+                        None => line,
+                    };
+                    let applied = imp_res != "err";
+                    if !applied { ctx.rep.hit("op.refused_by_size_limit"); }
                     let model = ctx.m.ask(&line);
                     if let Some(t) = model.split("total=").nth(1).and_then(|x| x.split_whitespace().next()).and_then(|x| x.parse().ok()) {
                         model_total = t;
@@ -766,7 +821,7 @@ fn run_chain(ctx: &mut Ctx, r: &mut Rng, cc: &ChainCfg, epochs: &[Vec<Op>]) {
                     let now_len = std::fs::metadata(&wal_path).map(|m| m.len() as usize).unwrap_or(0);
                     ctx.rep.hit(if is_put { "op.put" } else { "op.delete" });
                     ctx.rep.hit(&format!("keyclass.{}", key_class(k)));
-                    if immediate && cc.max_size.is_none() {
+                    if immediate && (cc.max_size.is_none() || cc.no_rotate) {
                         // the records this operation appended, decoded by the real bitcode
                         let file = std::fs::read(&wal_path).unwrap_or_default();
                         let newb = &file[prev_len.min(file.len())..];
@@ -827,8 +882,8 @@ fn run_chain(ctx: &mut Ctx, r: &mut Rng, cc: &ChainCfg, epochs: &[Vec<Op>]) {
                             }
                         }
                     }
-                    // spec
-                    if !is_cache(k) {
+                    // spec (an operation that returned a log error changes nothing)
+                    if !is_cache(k) && applied {
                         match op {
                             Op::Put(_, d) => {
                                 spec.insert(k.clone(), canon(d));
@@ -1026,7 +1081,7 @@ fn run_chain(ctx: &mut Ctx, r: &mut Rng, cc: &ChainCfg, epochs: &[Vec<Op>]) {
             let key = String::from_utf8(nverif::unhex(&g[1..])).unwrap_or_default();
             if key.starts_with("emb:") {
                 ctx.rep.hit("observe.ghost_key_in_scan");
-                ctx.rep.observe(json!({"what": "scan lists an emb: key that get rejects", "key_hex": g, "script": script}));
+                ctx.rep.observe(json!({"class": FAILED_PUT_GHOST, "what": "LIVE store: scan lists (and exists confirms) an emb: key that get rejects: a put_durable whose append was refused left its entity-index entry behind", "exists": store.exists(&key), "key_hex": g, "script": script}));
             } else {
                 // only emb: keys live in the entity index: a key of any other class that scan lists is readable
                 ctx.rep.hit(&format!("violation.{NON_EMB_GHOST}"));
@@ -1278,6 +1333,11 @@ fn stream_frames(ctx: &mut Ctx, r: &mut Rng, n: usize) {
     }
 }
 
+/// candidate finding (reported as an observation until decided): a put_durable of an emb: key with a vector whose
+/// append is refused (SizeLimitExceeded under auto_rotate = false, I/O error) returns an error but keeps the entity
+/// id it allocated before logging: exists/scan show a key no successful write created; a checkpoint persists it
+const FAILED_PUT_GHOST: &str = "tensor_store.slab_router.put_durable/failed_put_leaves_entity_index_entry";
+
 /// class of the defect repaired by "only `emb:` keys get an entity-index entry" (put_durable / apply_wal_entry)
 const NON_EMB_GHOST: &str = "tensor_store.slab_router.put_durable/non_emb_key_with_vector_stays_in_scan_after_delete";
 
@@ -1442,6 +1502,7 @@ fn main() {
         thorough: args.thorough,
         snap_contents: std::collections::HashMap::new(),
         max_rel_err: 0.0,
+        n_inexact_obs: 0,
     };
     ctx.rep.expected_branches = [
         "record.set", "record.del", "record.eset", "record.edel", "record.eremove", "keyclass.embedding", "keyclass.graph", "keyclass.table",
@@ -1449,7 +1510,7 @@ fn main() {
         "crash_number.1", "crash_number.2", "ckpt_state.before_fsync", "ckpt.unsynced_tail_flushed_by_checkpoint", "ckpt_state.before_snapshot", "ckpt_state.after_snapshot", "ckpt_state.inside_marker",
         "ckpt_state.after_marker", "ckpt_state.after_truncate", "frames.end.clean", "frames.end.torn", "frames.end.bad_crc", "frames.end.undecodable",
         "op.sync", "op.checkpoint", "oracle.recovered_state_is_acked_prefix",
-        "config.bloom", "config.no_checksums", "config.no_verify", "config.batched01", "ckpt_state.partial_snapshot_tmp", "emb.nonvector", "crash_number.3",
+        "config.bloom", "config.no_checksums", "config.no_verify", "config.batched01", "ckpt_state.partial_snapshot_tmp", "emb.nonvector", "crash_number.3", "config.no_auto_rotate", "op.refused_by_size_limit",
     ]
     .iter()
     .map(|s| s.to_string())
@@ -1604,10 +1665,31 @@ fn main() {
             vec![Op::Put("k".into(), td("v1")), Op::Put("emb:a".into(), tdv("e", 1.0, 3)), Op::Del("k".into())],
             vec![Op::Put("j".into(), td("w")), Op::Ckpt, Op::Put("k".into(), td("v2"))],
         ];
-        let cc = ChainCfg { stream: "probe_no_checksums", mode: SyncMode::Immediate, every_byte: true, checksums: false, ..BASE };
+        let cc = ChainCfg { stream: "probe_no_checksums", mode: SyncMode::Immediate, every_byte: th, random_cuts: 4, checksums: false, ..BASE };
         run_chain(&mut ctx, &mut r, &cc, &eps);
         let cc = ChainCfg { stream: "probe_no_verify", mode: SyncMode::Immediate, random_cuts: 4, verify: false, ..BASE };
         run_chain(&mut ctx, &mut r, &cc, &eps);
+        // auto_rotate = false: a record that does not fit max_size_bytes is refused (SizeLimitExceeded) and the
+        // operation returns an error before the in-memory apply. Three small puts, then a put of a new emb: key with
+        // a 64-dim vector that does not fit (its entity id stays allocated: candidate finding FAILED_PUT_GHOST,
+        // observed), a checkpoint (persists the entry, empties the log), a delete of the ghost, more writes
+        let eps = vec![
+            vec![Op::Put("k0".into(), td("vvvvvvvvvvvvvvvv")), Op::Put("k1".into(), td("vvvvvvvvvvvvvvvv")), Op::Put("k2".into(), td("vvvvvvvvvvvvvvvv")), Op::Put("emb:new".into(), tdv("x", 1.0, 64)), Op::Put("j".into(), td("w")), Op::Ckpt],
+            vec![Op::Del("emb:new".into()), Op::Put("a".into(), td("v")), Op::Put("emb:new".into(), tdv("y", 2.0, 3)), Op::Put("emb:big".into(), tdv("z", 3.0, 64))],
+            vec![Op::Put("b".into(), td("v2"))],
+        ];
+        let cc = ChainCfg { stream: "probe_size_limit", mode: SyncMode::Immediate, max_size: Some(200), random_cuts: 4, resume_full: true, no_rotate: true, ..BASE };
+        run_chain(&mut ctx, &mut r, &cc, &eps);
+        // a delete refused in the middle of its records (EmbeddingDelete + EntityRemove fit, MetadataDelete does not)
+        let eps = vec![
+            vec![Op::Put("emb:a".into(), tdv("e", 1.0, 3)), Op::Put("k".into(), td("0123456789")), Op::Del("emb:a".into()), Op::Del("k".into()), Op::Put("emb:a".into(), td("z"))],
+            vec![Op::Del("emb:a".into()), Op::Put("q".into(), td("r"))],
+        ];
+        let maxes: &[u64] = if th { &[150, 160, 170, 180, 190, 200, 215, 230] } else { &[160, 180, 200, 230] };
+        for &max in maxes {
+            let cc = ChainCfg { stream: "probe_size_limit", mode: SyncMode::Immediate, max_size: Some(max), every_byte: th, random_cuts: 3, no_rotate: true, ..BASE };
+            run_chain(&mut ctx, &mut r, &cc, &eps);
+        }
     }
 
     // 1. crc + frames
@@ -1733,6 +1815,22 @@ fn main() {
                 let mut v = gen_ops(&mut r, n, EmbPolicy::No384, mode != SyncMode::Immediate, true, &mut ctx.rep);
                 if r.chance(1, 3) { v.push(Op::Ckpt); }
                 v
+            }).collect();
+            run_chain(&mut ctx, &mut r, &cc, &eps);
+        }
+    }
+
+    // 9. auto_rotate = false: random chains under random size limits (refused appends anywhere in an operation)
+    {
+        let mut r = rng.fork("chain_size_limit");
+        let n = if th { 48 } else { 10 };
+        for i in 0..n {
+            let max = 80 + r.below(360);
+            let cc = ChainCfg { stream: "chain_size_limit", mode: SyncMode::Immediate, max_size: Some(max), random_cuts: if th { 16 } else { 5 }, no_rotate: true, bloom: i % 5 == 4, ..BASE };
+            let ne = 1 + r.below(3) as usize;
+            let eps: Vec<Vec<Op>> = (0..ne).map(|_| {
+                let n = 2 + r.below(7) as usize;
+                if i % 2 == 0 { gen_ops_keys(&mut r, n, OVERLAY_KEYS, EmbPolicy::No384, false, false, &mut ctx.rep) } else { gen_ops(&mut r, n, EmbPolicy::No384, false, false, &mut ctx.rep) }
             }).collect();
             run_chain(&mut ctx, &mut r, &cc, &eps);
         }
